@@ -5,8 +5,9 @@ Evaluated tests and counterexamples for `Properties/C20Iso.lean`.
 * `xmiRun` / `jsonRun`: the save/load round trip of the models followed by the two renderings, with `isoB` for the
   id-induced address map — the candidate statements `renderFrom_iso`, `render_xmi_roundtrip_flat`,
   `render_json_roundtrip_flat` evaluated on instances before they were proved;
-* the counterexamples that justify the shape of `Iso` (`cx_key`, `cx_stale_id`, `cx_depth`) and the one that shows why the
-  round-trip corollaries stop at the flat fragment (`cx_strarray_empty`).  The corollaries `render_xmi_roundtrip_flat` /
+* the counterexamples that justify the shape of `Iso` (`cx_key`, `cx_stale_id`; `cx_depth` recorded an artefact of the model's former recursion budget and is now a positive test) and the one that shows why the
+  round-trip corollaries of `Properties/C20Iso.lean` stop at the flat fragment (`cx_strarray_empty`; the whole format:
+  `Properties/C20IsoColl.lean`, `Spec/ComparableIsoCollCheck.lean`).  The corollaries `render_xmi_roundtrip_flat` /
   `render_json_roundtrip_flat` have no hypothesis beyond those of `xmi_roundtrip_flat` / `json_roundtrip_flat` and
   `Distinct` (the XMI one even drops `hdis`), so there is no further hypothesis to justify.
 
@@ -89,6 +90,9 @@ def valRelB (K : Consts) (hp hp' : Heap) (R : Nat → Nat → Bool) : Nat → Va
 
 def slotNames (hp : Heap) (a : Nat) : List String := match hp[a]? with | some o => o.slots.map (·.1) | none => []
 
+/-- a depth that covers every acyclic nesting of arrays in either heap (`Iso.slots` asks for *some* depth) -/
+def checkDepth (hp hp' : Heap) : Nat := 2 * max hp.length hp'.length + 2
+
 /-- `Iso`, conjunct by conjunct (the list of the conjuncts that fail; `[]` = isomorphic) -/
 def isoFails (K : Consts) (cass cass' : List Cas) (hp hp' : Heap) (indexed indexed' addrs addrs' : List Nat)
     (φ : Nat → Nat) : List String :=
@@ -101,7 +105,7 @@ def isoFails (K : Consts) (cass cass' : List Cas) (hp hp' : Heap) (indexed index
   (if addrs.all (fun a => !isAnnot hp a ||
       exBeq (· == ·) (Cas.coveredText cass' hp' (φ a)) (Cas.coveredText cass hp a)) then [] else ["covered"]) ++
   (if addrs.all (fun a => ((slotNames hp a ++ slotNames hp' (φ a)).filter (· != "sofa")).all (fun n =>
-      valRelB K hp hp' (sameKeyB hp hp' addrs φ) (isoDepth hp hp')
+      valRelB K hp hp' (sameKeyB hp hp' addrs φ) (checkDepth hp hp')
         ((slot hp a n).getD .none) ((slot hp' (φ a) n).getD .none))) then [] else ["slots"]) ++
   (if addrs.all (fun a => !isArrayFs K hp a ||
       (slot hp' (φ a) "elements").isSome == (slot hp a "elements").isSome) then [] else ["elems"])
@@ -255,17 +259,25 @@ def nested : Heap :=
   [ docObj (.ref 1), arr "uima.cas.FSArray" (.refs [some 2]), arr "uima.cas.FSArray" (.refs [some 3]),
     arr "uima.cas.FSArray" (.refs []) ]
 
-/-- **`cx_depth`** — the budget of the model's `renderVal` is `|heap| + 1` and every level of array nesting costs two
-    units: `x.Doc.fsa = [[[]]]` in a heap of four objects exhausts it (`RuntimeError`), the same content in a heap with
-    three more (unrelated) objects does not.  Hence `isoDepth`.  (The implementation has no such dependence on the heap
-    size: Python's limit is the interpreter's recursion limit; the model's budget is too small for acyclic nesting
-    deeper than `|heap| / 2` — reported.)  (`["slots"], false`, and the two results) -/
+/-- **`cx_depth`** (repaired, now a positive test) — the budget of the model's `renderVal` used to be `|heap| + 1` while
+    every level of array nesting costs two units: `x.Doc.fsa = [[[]]]` in a heap of four objects exhausted it
+    (`RuntimeError`), the same content in a heap with three more (unrelated) objects did not — the two sides of an
+    isomorphism differed.  The model's budget is now `2 * |heap| + 2`, enough for every acyclic nesting, as in the
+    implementation (whose only limit is the interpreter's recursion limit): both sides render `[[[]]]`, and the two heaps
+    are isomorphic (`Iso.slots` asks for some nesting depth, no longer for one bounded by the heap sizes).  (`([], true), true, true`) -/
 def cx_depth := (pair ts nested (nested ++ [arr "uima.cas.IntegerArray" .none, arr "uima.cas.IntegerArray" .none,
     arr "uima.cas.IntegerArray" .none]) [0],
   (renderFrom K ts [ResDemo.flatCas] nested {} (fun _ => 0) [0] [0]).toOption.isSome,
   (renderFrom K ts [ResDemo.flatCas] (nested ++ [arr "uima.cas.IntegerArray" .none, arr "uima.cas.IntegerArray" .none,
     arr "uima.cas.IntegerArray" .none]) {} (fun _ => 0) [0] [0]).toOption.isSome)
 #eval cx_depth
+#guard cx_depth.1.1.isEmpty && cx_depth.1.2 && cx_depth.2.1 && cx_depth.2.2
+/-- a cycle of arrays still exhausts the budget, on both sides alike (Python: `RecursionError` on both) -/
+def cyc_depth :=
+  let cyc := nested.set 3 (arr "uima.cas.FSArray" (.refs [some 1]))
+  ((renderFrom K ts [ResDemo.flatCas] cyc {} (fun _ => 0) [0] [0]).toOption.isSome,
+   (renderFrom K ts [ResDemo.flatCas] (cyc ++ [arr "uima.cas.IntegerArray" .none]) {} (fun _ => 0) [0] [0]).toOption.isSome)
+#guard cyc_depth == (false, false)
 
 /-- all of the above at once -/
 def allRuns : List (String × String) :=
